@@ -334,6 +334,90 @@ def _split_bases(model, rep):
                          bad, fn.lineno)
 
 
+def _supermesh_quadrature(model, rep):
+    """supermeshing.elementwise_quadrature builds, per cell of the mesh, the
+    rule of the supermesh triangles lying in it: points Y = F_mesh^-1
+    (F_super(X)), weights |det DF_super(X)| / |det DF_mesh(.)| W.  The
+    Jacobian of the mesh map belongs to the *pulled-back* points Y (local
+    coordinates of the mesh cell), not to the reference points X of the
+    supermesh triangle - the two differ unless the mesh map is affine.
+    Symbolic run with point arrays typed by the reference frame they live
+    in."""
+    R1 = "C02-R1"
+    fn = model.func("skfem.supermeshing", "elementwise_quadrature")
+    log = []
+
+    class Pts:
+        skv_isarray = True
+
+        def __init__(self, frame):
+            self.frame = frame
+
+    class Val:
+        skv_isarray = True
+
+        def skv_binop(self, op, other, reflected):
+            return Val()
+
+    def mapping(owner, ref_frame):
+        def F(a, k, n):
+            log.append((owner, "F", a[0].frame if isinstance(a[0], Pts)
+                        else "?"))
+            return Pts("global")
+
+        def invF(a, k, n):
+            log.append((owner, "invF", a[0].frame if isinstance(a[0], Pts)
+                        else "?"))
+            return Pts(ref_frame)
+
+        def detDF(a, k, n):
+            log.append((owner, "detDF", a[0].frame if isinstance(a[0], Pts)
+                        else "?"))
+            return Val()
+        return Obj(None, {"F": PyFunc(F), "invF": PyFunc(invF),
+                          "detDF": PyFunc(detDF)})
+    mesh = Obj(None, {"mapping": PyFunc(lambda a, k, n: mapping(
+        "mesh", "mesh cell"))})
+    sup = Obj(None, {"elem": "SUPER-ELEM", "mapping": PyFunc(
+        lambda a, k, n: mapping("supermesh", "supermesh cell"))})
+
+    def hook(interp, name, args, kwargs, node):
+        if name.endswith("get_quadrature"):
+            return (Pts("supermesh cell"), Val())
+        if name in ("numpy.abs", "numpy.absolute"):
+            return Val()
+        return NotImplemented
+    try:
+        it = Interp(model, call_hook=hook)
+        it.overrides["skfem.quadrature.get_quadrature"] = PyFunc(
+            lambda a, k, n: (Pts("supermesh cell"), Val()))
+        r = it.call(fn, [mesh], {"supermesh": sup, "tind": "TIND"})
+    except (Unsupported, Raised) as e:
+        raise AnalysisError(f"elementwise_quadrature: {e}")
+    want = {"mesh": "mesh cell", "supermesh": "supermesh cell"}
+    bad = [(o, f, fr) for o, f, fr in log
+           if (f in ("F", "detDF") and fr != want[o])
+           or (f == "invF" and fr != "global")]
+    okr = isinstance(r, tuple) and len(r) == 2 and isinstance(r[0], Pts) \
+        and r[0].frame == "mesh cell"
+    if not bad and okr and any(o == "mesh" and f == "detDF"
+                               for o, f, _ in log):
+        rep.ok(R1, "elementwise_quadrature:frames",
+               "every map is evaluated at points of its own reference "
+               "frame; the rule's points are local coordinates of the mesh "
+               "cell")
+    else:
+        o, f, fr = bad[0] if bad else ("?", "?", "?")
+        rep.fail(R1, fn.path, "elementwise_quadrature",
+                 "elementwise_quadrature:frames",
+                 f"{o}.{f} is evaluated at points of the {fr} frame"
+                 f" (log {log}): the Jacobian of the mesh map has to be "
+                 f"taken at the pulled-back points F_mesh^-1(F_super(X)); "
+                 f"at the supermesh's reference points it is right only "
+                 f"for affine mesh cells - on a trapezoid the weights give "
+                 f"area 1.5732 instead of 13/8", fn.lineno)
+
+
 def _boundary_basis(model, rep):
     """CellBasis.boundary(facets, intorder, quadrature): the facet basis is
     built on the same mesh / element / mapping and with the facets, order
@@ -720,6 +804,7 @@ def run(model: Model, rep, tier: str) -> None:
              "basis polynomial")
     staged(lambda: _derived_bases(model, rep),
            lambda: _split_bases(model, rep),
+           lambda: _supermesh_quadrature(model, rep),
            lambda: _boundary_basis(model, rep),
            lambda: _r12(model, rep), lambda: _interior_basis(model, rep),
            lambda: _r3(model, rep))
@@ -732,6 +817,12 @@ _CB = "skfem/assembly/basis/cell_basis.py"
 _FB = "skfem/assembly/basis/facet_basis.py"
 _ABF = "skfem/assembly/basis/abstract_basis.py"
 MUTANTS = [
+    ("supermesh quadrature divides by the mesh Jacobian at the supermesh's "
+     "reference points",
+     ("skfem/supermeshing.py",
+      "        np.abs(smap.detDF(X) / mmap.detDF(Y, tind=tind)) * W,",
+      "        np.abs(smap.detDF(X) / mmap.detDF(X, tind=tind)) * W,"),
+     "C02-R1"),
     ("component bases rebuilt without the restriction of their parent",
      ("skfem/assembly/basis/abstract_basis.py",
       "            return [self.with_element(e) for e in self.elem.elems]",
